@@ -1763,6 +1763,27 @@ fn stage_cases(ses: &mut Session, sut: &mut S, rng: &mut Rng) {
             }
             ses.mark(format!("edit-between:{}:{tag}:{pat}", kind.name()));
             ses.end_case();
+            // ---- case 3 (vending family): a discount set WHILE a whitelist stage is active (the public sale opened inside the
+            // whitelist window). The stage price stays the price in force for as long as a stage is active; the standing discount
+            // is charged only once no stage is (seeded C02-7: a discount that shadows the whitelist price).
+            if kind.is_vending() {
+                ses.begin_case(sut, &sc.header());
+                for b in BUYERS {
+                    ses.step(sut, &format!("fund a={b} cs={}", big_funds()));
+                }
+                let who = BUYERS[(ki + 1) % BUYERS.len()];
+                let dp = (d, sc.price / 2 + 1); // below the public price, no stage's price
+                ses.step(sut, &format!("t at={}", t1 + (t2 - t1) / 2));
+                let o1 = ses.step(sut, &format!("set_discount p={}", dp.1))[..2].to_string();
+                let (p1, k1) = triple(ses, sut, who, false, "");
+                let a1 = ses.step(sut, &format!("mint who={who} admin=0 funds={}", fmt_c(&dp)))[..1].to_string();
+                // tiered: the next stage (end instants are inclusive, so one ns later); single: the window is over, the discount applies
+                ses.step(sut, &format!("t at={}", if tiered { t2 + 1 } else { t2 }));
+                let (p2, k2) = triple(ses, sut, who, false, "");
+                let a2 = ses.step(sut, &format!("mint who={who} admin=0 funds={}", fmt_c(&dp)))[..1].to_string();
+                ses.mark(format!("disc-in-wl:{}:{tag}:{o1}:{p1}:{k1}:{a1}:{p2}:{k2}:{a2}", kind.name()));
+                ses.end_case();
+            }
         }
     }
 }
@@ -2313,6 +2334,11 @@ fn main() {
         ses.require(format!("edge-alt:{n}:i:er"));
         ses.require(format!("repeat:{n}:ok"));
         // a whitelist-side edit between two mints of one block changes the price in force
+        if n.starts_with("vending") {
+            // a standing discount never shadows an active stage's price; it is charged once no stage is active
+            ses.require(format!("disc-in-wl:{n}:i:ok:eeo:whitelist:e:eeo:whitelist:e"));
+            ses.require(format!("disc-in-wl:{n}:x:ok:eeo:whitelist:e:eeo:discount:o"));
+        }
         ses.require(format!("edit-between:{n}:i:oeo"));
         ses.require(format!("edit-between:{n}:x:oeo"));
     }
